@@ -54,7 +54,18 @@ func getExpansion(r *core.Result) *e3.Expansion {
 	return expansion
 }
 
+// KeepExpansion lets one process run several checks on one expansion (csverify checkmany); the caller
+// then calls ReleaseExpansionNow at the end.
+var KeepExpansion bool
+
 func releaseExpansion() {
+	if KeepExpansion {
+		return
+	}
+	ReleaseExpansionNow()
+}
+
+func ReleaseExpansionNow() {
 	if expansion != nil {
 		expansion.Cleanup()
 	}
